@@ -174,6 +174,15 @@ CHECKS = {
             'a leak that affects the history and the from-scratch build identically is only caught by the absolute oracle, which needs '
             'sets with an exact maximiser.',
             'DESIGN.md section 4 / C09'),
+    'C17': ('property-based differential testing of model isolation (interleaved build/solve of two generated models vs each model alone) '
+            'plus exhaustive enumeration of a misuse catalogue that must raise no later than solve()',
+            'Generated-input search over pairs of deterministic / robust / dro models in six interleavings (with re-solves of one model '
+            'after the other was built or solved), and the full catalogue of 19 misuse patterns x 4 ro/dro pairings x 2 timings x 2 '
+            'sizes enumerated on every run. An accepted misuse with a readable result, or an optimum that changes when another model '
+            'exists in the process, is a violation. Sampling plus a finite enumeration, not proof.',
+            'Interleaving is at the granularity of whole-model build and solve steps (a second model is never built in the middle of '
+            'another model\'s constraint list); cone-solver failures skipped.',
+            'DESIGN.md section 4 / C17'),
 }
 
 NOT_YET = 'check not built yet in this round (see DESIGN.md section 4 for the planned generator and oracle)'
